@@ -18,7 +18,10 @@ package mqttproxy
 // inside the handler, so when the entry member's handler has returned every peer has answered;
 // the fan-out barrier and a PINGREQ/PINGRESP per connection do the rest. Transport-level failures
 // of a forwarded request (machine out of ports ...) are counted by the rig and make the case
-// VF-INCONCLUSIVE instead of a missed delivery.
+// VF-INCONCLUSIVE instead of a missed delivery - except the failures at the one member the bed
+// makes unreachable on purpose (half of the cases): a member that is down is part of the
+// population the statement quantifies over ("independently of which other clients are subscribed
+// and of the order they are visited"), the reachable members listed after it must still be served.
 
 import (
 	"fmt"
@@ -48,6 +51,9 @@ func TestVerifC15Cluster(t *testing.T) {
 	defer vf.End()
 	rapid.Check(t, func(rt *rapid.T) {
 		nMembers := []int{2, 3, 3, 4}[vfC15Bits(rt, 2, "membersBits")]
+		// in half of the cases the cluster has one more member, which is down: requests forwarded to
+		// it fail in the HTTP transport; it sits at a drawn position of everybody's member list
+		withDead := vfC15Bits(rt, 1, "deadMemberBit") == 1
 		// the order in which each member's member list reports the others: a drawn permutation
 		order := make([][]int, nMembers)
 		for i := range order {
@@ -56,6 +62,9 @@ func TestVerifC15Cluster(t *testing.T) {
 				if j != i {
 					others = append(others, j)
 				}
+			}
+			if withDead {
+				others = append(others, nMembers) // index nMembers = the member that is down
 			}
 			order[i] = rapid.Permutation(others).Draw(rt, fmt.Sprintf("peerOrder%d", i))
 		}
@@ -104,7 +113,7 @@ func TestVerifC15Cluster(t *testing.T) {
 			entry = append(entry, vfC15Bits(rt, 2, "entryBits")%nMembers)
 		}
 		var sb strings.Builder
-		fmt.Fprintf(&sb, "members=%d peer-order=%v clients-on-members=%v entry-members=%v | %s", nMembers, order, member, entry, k.String())
+		fmt.Fprintf(&sb, "members=%d unreachable-member=%v peer-order=%v clients-on-members=%v entry-members=%v | %s", nMembers, map[bool]string{true: fmt.Sprintf("#%d", nMembers), false: "none"}[withDead], order, member, entry, k.String())
 		caseStr := sb.String()
 
 		cluster, err := vfMqNewCluster(nMembers, order)
@@ -137,7 +146,7 @@ func TestVerifC15Cluster(t *testing.T) {
 			r.live = append(r.live, true)
 			r.stale = append(r.stale, false)
 		}
-		failuresBefore := vfMqTransferFailures()
+		failuresBefore, deadBefore := vfMqTransferFailures(), vfMqDeadRefusals()
 		for j, m := range k.Msgs {
 			r.rig = cluster.Rigs[entry[j]]
 			if code := r.publish(m); code != 200 {
@@ -155,7 +164,10 @@ func TestVerifC15Cluster(t *testing.T) {
 
 		// --- oracle: the fan-out oracle, with a key that says where the missed client sits
 		vf.Class(fmt.Sprintf("cluster:members=%d", nMembers))
-		remotePairs, laterPeerPairs := 0, 0
+		if withDead {
+			vf.Class("cluster:one-more-member-is-unreachable")
+		}
+		remotePairs, laterPeerPairs, behindDeadPairs := 0, 0, 0
 		for i, c := range r.cl {
 			for j, m := range k.Msgs {
 				mq := k.matchQoS(i, m.Topic)
@@ -169,11 +181,15 @@ func TestVerifC15Cluster(t *testing.T) {
 					continue
 				}
 				where := "entry-member"
+				key := vfC15KeyPeer
 				if member[i] != entry[j] {
-					pos := 0
+					pos, deadPos := 0, -1
 					for p, x := range order[entry[j]] {
 						if x == member[i] {
 							pos = p
+						}
+						if x == nMembers {
+							deadPos = p
 						}
 					}
 					where = fmt.Sprintf("peer#%d-of-entry-member", pos+1)
@@ -181,10 +197,17 @@ func TestVerifC15Cluster(t *testing.T) {
 					if pos > 0 {
 						laterPeerPairs++
 					}
+					if deadPos >= 0 && deadPos < pos {
+						// "independently of ... the order they are visited": a member that is down is
+						// listed before this client's member
+						behindDeadPairs++
+						vf.Class("cluster-pair:eligible-on-a-member-listed-after-the-unreachable-one")
+						key = vfC15KeyPeer + "-behind-an-unreachable-member"
+					}
 				}
 				vf.Class("cluster-pair:eligible-on-" + where)
 				if len(c.Publishes(m.Payload)) == 0 && member[i] != entry[j] {
-					if vf.Violation(rt, vfC15KeyPeer, "c%d, connected to member %d (%s; matching subscription QoS %v), never got message %v published at member %d\ncase: %s\n%s",
+					if vf.Violation(rt, key, "c%d, connected to member %d (%s; matching subscription QoS %v), never got message %v published at member %d\ncase: %s\n%s",
 						i, member[i], where, mq, m, entry[j], caseStr, r.dump()) {
 						return
 					}
@@ -195,6 +218,14 @@ func TestVerifC15Cluster(t *testing.T) {
 		r.checkDelivery(rt, vf)
 		if laterPeerPairs > 0 {
 			vf.Class("nontrivial:eligible-subscriber-on-second-or-later-peer")
+		}
+		if behindDeadPairs > 0 {
+			vf.Class("nontrivial:eligible-subscriber-on-a-member-listed-after-an-unreachable-one")
+		}
+		if n := vfMqDeadRefusals() - deadBefore; n > 0 {
+			vf.Class("forwarded-request-failed-at-the-unreachable-member")
+		} else if withDead {
+			vf.Class("unreachable-member-was-never-tried")
 		}
 		vf.Case(remotePairs > 0, "cluster|"+caseStr, func() interface{} {
 			return map[string]interface{}{"test": "cluster", "case": caseStr}
